@@ -25,6 +25,7 @@ import (
 
 	"github.com/zmap/zcrypto/x509"
 	"verifmc/internal/ev"
+	"verifmc/internal/nohb"
 )
 
 func replay(c *ev.Ctx) {
@@ -112,6 +113,10 @@ func replay(c *ev.Ctx) {
 }
 
 func main() {
+	if nohb.IsWorker() {
+		nohb.WorkerMain(reentrantOps(), reentrantRepoDir())
+		return
+	}
 	ev.Main("C03", "model_checking", func(c *ev.Ctx) {
 		c.Rule("part 1: K = 16 key fixtures (quick; 28 thorough; incl. P-256 handed over as *x509.AugmentedECDSA — the form and the branch of CheckSignatureFromKey every PARSED certificate/CSR/CRL/OCSP key goes through — (thorough: every curve) and a DSA (2048,224) key for the digest truncation with a q that is neither 160 nor 256 bits) × A = all 17 SignatureAlgorithm constants × M = 6 messages (0,1,55,56,64,1024 bytes); for every (k,a,m) that has a genuine standard-library signature: the genuine tuple, every single-bit flip of the signature, every single-bit flip of the message (≤ 64 bytes: all bytes; 1 KiB: first and last 32 bytes), every other key of K (the same key in its other Go type must verify), one near-miss key (RSA: same modulus, e+2; ECDSA: the point (x, p-y); DSA: same (p,q,g), y*g mod p), every other algorithm of A, one byte removed/added at either end, for ECDSA/DSA 29 (r,s) pairs from {r,0,n,n+r,-r}×{s,0,n,n+s,-s,n-s} + 11 non-DER encodings, for RSA 11–13 private-key signatures over malformed EMSA-PKCS1-v1_5 / EMSA-PSS encodings. Quick-tier reductions of the bit-flip sweeps only (thorough has none): RSA ≥ 2048 bits: signature bits {0,7} of every byte; P-224/P-384/P-521/DSA: all bits on the 64-byte message, bits {0,7} of every byte on the other five; P-521 additionally sweeps only (ECDSA-SHA512 × all messages) and (other hashes × 64-byte message). Verdicts part 1: genuine accepted; every deviation accepted exactly when the standard library accepts it under the SAME (key type, algorithm) — an algorithm of another key family is never accepted; a panic is a violation. part 2: 6 creation APIs (incl. an OCSP response signed by a delegated responder whose certificate is embedded and checked against the issuer) × 18 SignatureAlgorithm values (0..16, 17) × 9 signer keys (quick; 12 thorough); every accepted combination is created, self-verified and judged by the independent decoder; each object is then swept with every substitution from {00,ff,b^01,b^80} (thorough: +{01,7f,80} and all 8 bit flips) at every offset (quick: P-224/P-384/P-521 objects and delegated OCSP responses are swept for the default algorithm only); an accepted substitution must leave a signature that the independent decoder + standard library still verify under the algorithm the object was made with; a panic is a violation; a signer kind the APIs document as unsupported (DSA) being accepted is a violation. A case is non-trivial when it reaches cryptographic verification (accepted, or rejected with a verification error rather than a decoding error)")
 		c.Assume("the Go standard library (crypto/rsa, crypto/ecdsa, crypto/ed25519, crypto/dsa, encoding/asn1) is the reference for 'valid signature'",
@@ -134,5 +139,6 @@ func main() {
 			return
 		}
 		runObj(c)
+		reentrantPhase(c)
 	})
 }
